@@ -181,16 +181,25 @@ func Worker(prop, tier string, seed uint64, w, W int, start, limit int64) int {
 			}
 		}
 		if len(mine) > 0 {
-			k := mine[0].Key()
-			sum.ViolCount[k]++
-			if perKey[k] < 2 {
-				perKey[k]++
-				fs := o.Fail
-				if fs == nil {
-					fs = sc
+			// one message per distinct violation key of the run, so that a recorded known
+			// finding can never hide a different violation found in the same run
+			seenKey := map[string]bool{}
+			for _, v := range mine {
+				k := v.Key()
+				if seenKey[k] {
+					continue
 				}
-				raw, _ := json.Marshal(fs)
-				emit(workerMsg{T: "viol", Idx: idx, Scenario: raw, Violations: mine, LogSHA: o.Log.Sum()})
+				seenKey[k] = true
+				sum.ViolCount[k]++
+				if perKey[k] < 2 {
+					perKey[k]++
+					fs := v.Scenario
+					if fs == nil {
+						fs = sc
+					}
+					raw, _ := json.Marshal(fs)
+					emit(workerMsg{T: "viol", Idx: idx, Scenario: raw, Violations: []Violation{v}, LogSHA: o.Log.Sum()})
+				}
 			}
 		} else if w == 0 && samples < 2 {
 			samples++
